@@ -284,3 +284,22 @@ def holds(conds, pred):
             if pred(t, p):
                 return True
     return False
+
+
+def always_assigns(stmts, name, value_src):
+    """does every normal path through the statement list execute `name = <value_src>` (a must-analysis over
+    if/else, try and with; loops count only for what follows them)?"""
+    from .core import norm
+    for s in stmts:
+        if isinstance(s, ast.Assign) and any(norm(t) == name for t in s.targets) and norm(s.value) == value_src:
+            return True
+        if isinstance(s, ast.If) and s.orelse and always_assigns(s.body, name, value_src) and always_assigns(s.orelse, name, value_src):
+            return True
+        if isinstance(s, ast.If) and _terminates(s.body) and not s.orelse:
+            continue
+        if isinstance(s, (ast.With, ast.AsyncWith)) and always_assigns(s.body, name, value_src):
+            return True
+        if isinstance(s, ast.Try) and (always_assigns(s.finalbody, name, value_src) or
+                                       (always_assigns(s.body, name, value_src) and all(always_assigns(h.body, name, value_src) for h in s.handlers))):
+            return True
+    return False
